@@ -369,7 +369,11 @@ func load(ctx context.Context, wd string, env []string, tags string, patterns []
 		// TODO(light): Use ParseFile to skip function bodies and comments in indirect packages.
 	}
 	if len(tags) > 0 {
-		cfg.BuildFlags[0] += " " + tags
+		// The go tool wants one separator throughout; accept both the
+		// comma-separated and the (deprecated) space-separated form.
+		for _, tag := range strings.FieldsFunc(tags, func(r rune) bool { return r == ',' || r == ' ' }) {
+			cfg.BuildFlags[0] += "," + tag
+		}
 	}
 	escaped := make([]string, len(patterns))
 	for i := range patterns {
